@@ -15,7 +15,7 @@ from simkit.clock import EPOCH
 from simkit.harness import Check, bump, new_result, rng_for, violation
 from simkit.loop import sim_run
 from simkit.net import Policy, SimNet
-from simkit.world import Recorder, Seams, quiet_logging
+from simkit.world import Recorder, Seams, quiet_logging, seed_unseeded_rng
 
 from gallia.services.uds.core import service
 from gallia.services.uds.core.client import UDSClient
@@ -195,6 +195,7 @@ class C14(Check):
             rec = Recorder(loop)
             holder["rec"] = rec
             seams.set(server_mod, "time", lambda: EPOCH + loop.time())
+            seed_unseeded_rng(seams, plan["net_seed"])
             net = SimNet(loop, seed=plan["net_seed"])
             net.policy_factory = lambda i, d: Policy(seed=plan["net_seed"] + 2 * i + (d == "s2c"), segment=plan["segment"], lat_min=plan["lat"][0], lat_max=plan["lat"][1])
             net.install()
